@@ -380,6 +380,9 @@ func ruleWIN4(c *Checker) {
 // C01
 
 func runC01(c *Checker) {
+	// a message is reassembled from chunks before it is delivered: the chunking obligations (C14) are
+	// part of "exactly once, in order, intact" (its recorded known finding stays under C14)
+	importLayers(c, "C14")
 	w := c.w
 	rl := w.Func("(*gbn.GoBackNConn).receivePacketsForever")
 	sl := w.Func("(*gbn.GoBackNConn).sendPacketsForever")
@@ -896,13 +899,73 @@ func ruleWIN5(c *Checker) {
 			}
 		}
 	})
+	// every packet that is queued was obtained in this iteration: the value taken from sendDataChan
+	// or a PacketData allocated on a ping leg - never a value carried over from an earlier iteration
+	// (a stale packet would be queued again under a new sequence number and delivered twice) or nil
+	for i, a := range effAdds {
+		if len(a.Args) < 2 || a.Args[1] == nil {
+			c.fail("WIN-5", fmt.Sprintf("sendLoop|queued packet %d is fresh", i+1), instrPos(a.Site), "the queued packet cannot be traced to the send loop")
+			continue
+		}
+		bad := ""
+		var vals []ssa.Value
+		seenPhi := map[*ssa.Phi]bool{}
+		var expand func(v ssa.Value)
+		expand = func(v ssa.Value) {
+			v = unwrapLoadAlloc(v)
+			if phi, ok := v.(*ssa.Phi); ok {
+				if seenPhi[phi] {
+					return
+				}
+				seenPhi[phi] = true
+				for k, e := range phi.Edges {
+					// a back edge (the predecessor is dominated by the phi's block) carries last iteration's value
+					if phi.Block().Dominates(phi.Block().Preds[k]) {
+						bad = "a value carried over from the previous iteration (" + w.canonFB(e) + ")"
+						continue
+					}
+					expand(e)
+				}
+				return
+			}
+			vals = append(vals, v)
+		}
+		expand(a.Args[1])
+		for _, v := range vals {
+			switch x := v.(type) {
+			case *ssa.Alloc:
+				if nt := namedOf(x.Type()); nt == nil || nt.Obj().Name() != "PacketData" {
+					bad = w.canonFB(v)
+				}
+			case *ssa.Extract, *ssa.UnOp:
+				isRecv := false
+				allInstrs(sl, func(in ssa.Instruction) {
+					if sel, ok := in.(*ssa.Select); ok {
+						cases, _ := w.selectCases(sel)
+						for _, sc := range cases {
+							if !sc.IsSend && chanField(sc.Chan) == fSendChan && sc.RecvV == v {
+								isRecv = true
+							}
+						}
+					}
+				})
+				if !isRecv {
+					bad = w.canonFB(v)
+				}
+			default:
+				bad = w.canonFB(v)
+			}
+		}
+		c.decide(bad == "", "WIN-5", fmt.Sprintf("sendLoop|queued packet %d is fresh", i+1), instrPos(a.Site), "the queued packet is the one just received from Send or a newly allocated ping",
+			"the send loop can queue "+bad+": a packet that was already sent is queued again under a new sequence number (duplicate delivery), or a nil packet is queued")
+	}
 	c.decide(nRecv == 1, "WIN-5", "sendDataChan|single receive site", sl.Pos(), "one receive site in the send loop", fmt.Sprintf("%d receive sites for sendDataChan in the send loop", nRecv))
 	fRecvChan := w.Field("gbn.GoBackNConn.recvDataChan")
 	rl := w.Func("(*gbn.GoBackNConn).receivePacketsForever")
 	if fRecvChan != nil && rl != nil {
 		ruleWIN2(c, fRecvChan, fSendChan, rl, sl)
 	}
-	c.floor("WIN-5", 4)
+	c.floor("WIN-5", 5)
 
 }
 
